@@ -1,15 +1,25 @@
-use std::mem::MaybeUninit;
+use std::{marker::PhantomData, mem::MaybeUninit};
 
 /// Internal data holder, heavily unsage, do not use it directly.
 pub struct RecordMaybeUninit<const CAP: usize> {
     data: [MaybeUninit<u8>; CAP],
+    // The bytes hold values of types unknown here: whether they can cross threads is decided by
+    // the generated code which knows those types (see [`RecordDataTypes`]).
+    _not_send_sync: PhantomData<*mut u8>,
 }
+
+/// Marker of the types of the data held by a record variant.
+///
+/// It is used by truc-generated code to make a record `Send` (resp. `Sync`) if and only if all the
+/// data it holds are `Send` (resp. `Sync`).
+pub struct RecordDataTypes<T, const CAP: usize>(PhantomData<T>);
 
 impl<const CAP: usize> RecordMaybeUninit<CAP> {
     /// Constructs an uninitialized record.
     pub fn new() -> Self {
         Self {
             data: unsafe { std::mem::MaybeUninit::uninit().assume_init() },
+            _not_send_sync: PhantomData,
         }
     }
 
